@@ -6,7 +6,7 @@ driver loop (every id visited, build only when available, each built node added 
 the same driver with the caller's strandedness, node storage keeps sequence / extensions / payload in lockstep; and
 the step function itself (complete decision table, as in C02.1): the neighbour it hands to the walk is the k-mer the
 recorded extension denotes, looked up under the caller's strandedness, and only when it is present and available."""
-from .. import dt_compress, dt_tables
+from .. import dt_filter, dt_compress, dt_tables
 from . import common
 
 ASSUMPTIONS = ["extensions are symmetric (presupposed by the property)"]
@@ -28,3 +28,6 @@ def run(F, rep):
     rep.run(common.run_kmer_lemmas, F, rep, {"canon"})
     # node k-mers are observed through Vmer::get_kmer / iter_kmers on views of the packed store (any k-mer type, any offset)
     rep.run(common.run_store_kmer_lemmas, F, rep, "C01.6")
+    # the statement quantifies over read sets and count thresholds: the k-mer table the graph is built from is filter_kmers' (pass tiling,
+    # grouping, canonicalisation, emission)
+    rep.run(dt_filter.filter_tables, F, rep, "C01.6")
